@@ -3,7 +3,10 @@
 Instrumented operator / logbook subclasses (harness classes deriving from the repository's abstract operators) are
 handed to the real ``RecurrentSelectionBreedingProgram``; every call they receive is an event for an online trace
 automaton written from the property statement (pbmon/oracle/bploop.py holds the value digests, the state generator
-and the hostile in-place mutations).
+and the hostile in-place mutations).  Initial states range from plain python/numpy values to dicts of real library
+objects; "every replicate starts from a state equal to the initial one" is judged by an observable-equality walk
+(public properties + read-only behavioural probes, C20.fresh.library names the class whose copy differs) and by an
+alias walk over the private fields (C20.fresh.noalias).
 """
 import contextlib
 import copy
@@ -20,7 +23,7 @@ NSHARDS = {"quick": 4, "thorough": 16}
 CLAUSES = {
     "C20.order": 20000, "C20.order.complete": 800, "C20.time": 20000,
     "C20.chain": 8000, "C20.chain.mcfg": 2000, "C20.log.state": 8000, "C20.lbook.rep": 8000,
-    "C20.fresh.equal": 1500, "C20.fresh.noalias": 3000, "C20.start.unmodified": 2000,
+    "C20.fresh.equal": 1500, "C20.fresh.noalias": 3000, "C20.fresh.library": 300, "C20.start.unmodified": 2000,
 }
 HOOKS_REQUIRED = ["operator/logbook events", "evolve calls", "later replicates after in-place mutation",
                   "anchor entered: RecurrentSelectionBreedingProgram.reset", "anchor entered: RecurrentSelectionBreedingProgram.advance",
@@ -28,7 +31,11 @@ HOOKS_REQUIRED = ["operator/logbook events", "evolve calls", "later replicates a
                   "cases with a manual history before evolve()"]
 RULE = ("one case = one programme built from a seeded initial state (classes: empty, scalars, nested lists/dicts/sets, "
         "numpy arrays incl. views/object arrays/NaN, plain objects, cross-container aliasing and cycles, non-string keys, "
-        "real pybrops matrices), initialised through the constructor, the setters, the initop inside evolve() or an explicit "
+        "a pair of pybrops matrices, and 'library' states whose five dicts hold what the containers are documented to hold: "
+        "phased and unphased genotype matrices grouped along taxa only / variants only / both / neither, lists of matrices, "
+        "pandas phenotype frames with NaN, the three breeding-value matrix classes, additive / additive+dominance (non-zero u_d) / "
+        "rrBLUP models with u_misc and hyperparameters, standard and extended genetic maps (grouped or not, with or without "
+        "interpolators), coancestry matrices, progeny variance matrices, phenotyping protocols with their own generator), initialised through the constructor, the setters, the initop inside evolve() or an explicit "
         "initialize(); operator behaviour per run: return inputs / mutate in place (insert, delete, clear, grow lists, "
         "overwrite arrays) / return deep copies (optionally trashing the inputs) / return new dicts sharing nested objects / "
         "mixed per call incl. permuted or aliased returns and late mutation of containers of earlier replicates; logbook "
@@ -48,6 +55,12 @@ ASSUME = ["the time index is 0 at the initial evaluation of a replicate and g in
           "reset() followed by advance() (without evolve) is read as a replicate whose first cycle has time index 0",
           "'the initial one' is the initial state stored in the programme when evolve() is called: after the caller re-assigns or edits "
           "start_* or calls initialize() again, that newer state is the reference (the oracle follows only changes the harness made itself)",
+          "two library objects are equal when every public property of their class (arrays incl. dtype and shape, labels, group labels "
+          "and group index metadata, parameters) and the read-only behavioural probes of pbmon/oracle/bploop.py (is_grouped_*(), afreq(), "
+          "unscale(), gegv_numpy/gebv_numpy on a fixed marker matrix, genetic-map interpolation) agree; pandas frames by columns, dtypes, "
+          "index and cell values (NaN == NaN)",
+          "an evolve() that raises while plain copy.deepcopy of the stored initial state raises too (the harness edited a library object of "
+          "the initial state in place into something its class refuses to rebuild) is counted as raised, not as a violation",
           "an operator that raises aborts evolve(); only the stored initial state and the next evolve() are judged afterwards"]
 TIMEOUT = {"quick": 900, "thorough": 3 * 3600}
 
@@ -97,6 +110,7 @@ class Monitor(object):
         self.nev = 0
         self.raise_at = None
         self.inplace_done = False   # some in-place mutation happened in an earlier replicate
+        self.haslib, self.start_ok = False, True
         self.hist = ""              # "/after manual ..." once the caller worked on the programme by hand before evolve()
         self.inplace_now = False
 
@@ -190,13 +204,26 @@ class Monitor(object):
         if self.inplace_done:
             ctx.hook("later replicates after in-place mutation")
         icls = self.mutcls()
-        d = O.dgs(conts, self.current)
+        d = O.dgs(conts, self.current, probe=True)
         bad = [O.NAMES[i] for i in range(5) if d[i] != self.S0[i]]
+        ssink = self.check_start()
+        ld = None
+        if self.haslib and self.start_ok:
+            bp = self.bp
+            ld = O.lib_diff([bp.start_genome, bp.start_geno, bp.start_pheno, bp.start_bval, bp.start_gmod], conts)
+            if ld is None:      # the states differ outside their library objects: C20.fresh.equal says so
+                ctx.sumnote("first states not comparable object by object")
+            else:
+                ctx.check("C20.fresh.library", not ld, SITE + "reset",
+                          "each library object of a replicate's first state is observably equal (fields and behaviour) to its counterpart in the stored initial state",
+                          "copy of " + ", ".join(sorted({c for c, _ in ld})) if ld else "library objects",
+                          witness=self.witness(replicate=exp.r, differing_objects=[[c, f] for c, f in ld][:6]), coords=self.coords)
+        if ld:      # the whole-state comparison fails for the same reason: one mechanism, one input class
+            icls = "state holding library objects whose copies differ"
         ctx.check("C20.fresh.equal", not bad, SITE + "reset", "a replicate's first step receives a state equal to the initial one", icls,
-                  witness=self.witness(differing=bad, replicate=exp.r,
+                  witness=self.witness(differing=bad, replicate=exp.r, library_objects=[[c, f] for c, f in (ld or [])][:6],
                                        got=[O.brief(conts[i]) for i in range(5) if d[i] != self.S0[i]][:2],
                                        initial=[self.S0brief[i] for i in range(5) if d[i] != self.S0[i]][:2]), coords=self.coords)
-        ssink = self.check_start()
         cur = set(self.current)
         sh = [type(self.current[i]).__name__ for i in cur & set(ssink)]
         ctx.check("C20.fresh.noalias", not sh, SITE + "reset", "a replicate's first state shares no mutable object with the stored initial state", "any operators" + self.hist,
@@ -213,8 +240,9 @@ class Monitor(object):
         icls = self.mutcls() + ("/" + extra if extra else "")
         ssink = {}
         start = [bp.start_genome, bp.start_geno, bp.start_pheno, bp.start_bval, bp.start_gmod]
-        sd = [O.dg(s, ssink) for s in start]
+        sd = [O.dg(s, ssink, probe=True) for s in start]
         bad = [O.NAMES[i] for i in range(5) if sd[i] != self.S0[i]]
+        self.start_ok = not bad
         self.ctx.check("C20.start.unmodified", not bad, SITE + "evolve", "the stored initial state is unchanged", icls,
                        witness=self.witness(differing=bad, now=[O.brief(start[i]) for i in range(5) if sd[i] != self.S0[i]][:2],
                                             initial=[self.S0brief[i] for i in range(5) if sd[i] != self.S0[i]][:2]), coords=self.coords)
@@ -460,11 +488,19 @@ def _evolve(ctx, mon, bp, lb, nrep, ngen, loginit, verbose, injected):
         mon.check_start("an operator raised")
         return False
     except Exception as e:
+        tb = traceback.format_exc()[-1500:]
+        try:    # equivalence reading: a start state that plain copy.deepcopy cannot copy either (the harness edited a
+            copy.deepcopy([bp.start_genome, bp.start_geno, bp.start_pheno, bp.start_bval, bp.start_gmod])   # library object in place)
+        except Exception:
+            ctx.raised("evolve: the stored initial state cannot be deep-copied (edited in place by the harness)", e)
+            mon.abort_call()
+            mon.dead = True
+            return False
         ctx.raised("evolve", e)
         ctx.ok("C20.evolve.returns")
         ctx.violation("C20.evolve.returns", SITE + "evolve", "raised %s" % type(e).__name__, mon.bicls,
                       what="evolve raised %s: %s" % (type(e).__name__, str(e)[:160]),
-                      witness=mon.witness(traceback=traceback.format_exc()[-1500:]), coords=mon.coords)
+                      witness=mon.witness(traceback=tb), coords=mon.coords)
         mon.abort_call()
         mon.dead = True
         return False
@@ -489,7 +525,8 @@ def _plan(gp):
 
 def _set_initial(mon, S):
     """The harness itself installs a new initial state: the oracle's reference moves with it."""
-    mon.S0, mon.S0brief = O.dgs(S), [O.brief(x) for x in S]
+    mon.S0, mon.S0brief = O.dgs(S, probe=True), [O.brief(x) for x in S]
+    mon.haslib = bool(O.lib_index(S)[1])
 
 
 def _prelude(ctx, mon, bp, lb, initop, gp, plan):
@@ -523,7 +560,7 @@ def _prelude(ctx, mon, bp, lb, initop, gp, plan):
                     continue
                 i = int(gp.integers(5))
                 new = {("installed", n): [n, float(gp.random())], "arr": gp.integers(0, 3, 4)}
-                mon.S0[i], mon.S0brief[i] = O.dg(new), O.brief(new)
+                mon.S0[i], mon.S0brief[i] = O.dg(new, probe=True), O.brief(new)
                 setattr(bp, names[i], new)
             elif act == "edit start_* in place":
                 mon.check_start("before a manual edit")     # never re-base over an unnoticed change
@@ -565,12 +602,14 @@ def one_case(ctx, c):
     scls = O.STATE_CLASSES[int(g.integers(0, len(O.STATE_CLASSES)))]
     scen = SCENARIOS[int(g.integers(0, len(SCENARIOS)))]
     nrep, ngen = _sizes(ctx, g)
+    if scls == "library":     # digesting a zoo of library objects at every step is dear: short runs, the clauses at stake are per replicate
+        nrep, ngen = min(nrep, 4), min(ngen, 3)
     loginit = [None, True, False][int(g.integers(0, 3))]
     log_mutates = bool(g.random() < 0.12)
     verbose = bool(g.random() < 0.08)
     t_max = int(g.integers(0, 30))
     S = O.gen_state(g, scls)
-    S0 = O.dgs(S)
+    S0 = O.dgs(S, probe=True)
     params = {"case": c, "operators": beh, "init": init, "state_class": scls, "scenario": scen, "nrep": nrep, "ngen": ngen,
               "loginit": loginit, "logbook_mutates": log_mutates, "t_max": t_max, "manual_history_before": plan}
     coords = [c, "run"]
@@ -580,6 +619,7 @@ def one_case(ctx, c):
         ctx.sample(dict(params, initial_state=[O.brief(s, 300) for s in S]))
     mon = Monitor(ctx, coords, beh, params)
     mon.S0, mon.S0brief = S0, [O.brief(s) for s in S]
+    mon.haslib = bool(O.lib_index(S)[1])
     h = Harness(mon, g, beh, log_mutates)
     pre = init in ("constructor", "setters")
     # a pre-initialised programme must never consult its initop: that one would deliver a visibly different state
@@ -656,7 +696,7 @@ def one_case(ctx, c):
         mon.end_call("advance", lb.rep, "advance() after evolve()")
 
 
-QUICK_TOTAL, THOROUGH_TOTAL = 1200, 40000
+QUICK_TOTAL, THOROUGH_TOTAL = 900, 30000
 _INSTALLED = []
 
 
